@@ -452,6 +452,55 @@ fn check_call_sequence(rep: &mut Report, ops: &[(&'static str, Op)], seed: u64, 
     }
 }
 
+/// A complete text item (definite or chunked, bare or inside a container / tag) whose content is
+/// 0..=48 characters of mixed 1-4 byte encodings followed / interrupted by bytes that make it
+/// invalid UTF-8.
+pub fn bad_text_item(rng: &mut Rng) -> Vec<u8> {
+    let chars = ['a', 'ä', '€', '😀', 'z', 'é', '\u{7ff}', '\u{800}', '\u{ffff}', '\u{10000}'];
+    let k = rng.below(49) as usize;
+    let mut s = String::new();
+    let narrow = rng.below(3); // 0: mixed, 1: all two-byte, 2: all three-byte
+    for _ in 0..k {
+        s.push(match narrow {
+            1 => 'ä',
+            2 => '€',
+            _ => *rng.pick(&chars),
+        })
+    }
+    let mut bytes = s.into_bytes();
+    let tail: &[u8] = match rng.below(7) {
+        0 => &[0xc3],
+        1 => &[0xe2, 0x82],
+        2 => &[0xf0, 0x9f, 0x98],
+        3 => &[0x80],
+        4 => &[0xff],
+        5 => &[0xc0, 0xaf],
+        _ => &[0xed, 0xa0, 0x80],
+    };
+    if rng.chance(3, 4) {
+        bytes.extend_from_slice(tail)
+    } else {
+        let at = rng.usize_below(bytes.len() + 1);
+        for (j, b) in tail.iter().enumerate() {
+            bytes.insert(at + j, *b)
+        }
+    }
+    let text = if rng.chance(1, 4) && bytes.len() >= 2 {
+        let cut = 1 + rng.usize_below(bytes.len() - 1);
+        Item::TextIndef(vec![(vcore::refcbor::min_width(cut as u64), bytes[..cut].to_vec()), (vcore::refcbor::min_width((bytes.len() - cut) as u64), bytes[cut..].to_vec())])
+    } else {
+        Item::Text { w: vcore::refcbor::min_width(bytes.len() as u64), v: bytes }
+    };
+    match rng.below(6) {
+        0 | 1 => text,
+        2 => Item::array(vec![Item::uint(1), text]),
+        3 => Item::array(vec![text, Item::uint(2)]),
+        4 => Item::map(vec![(text, Item::uint(0))]),
+        _ => Item::tag(rng.below(40), text),
+    }
+    .encode()
+}
+
 /// Inputs aimed at the `[T; N]` / container drop paths.
 fn tracked_inputs(rng: &mut Rng) -> Vec<u8> {
     let k = *rng.pick(&[0usize, 1, 2, 3, 4, 31, 32, 33, 40]);
@@ -673,6 +722,23 @@ pub fn run(a: &Args, rep: &mut Report) {
             }
         }
         rep.count_n("deep nesting families", n);
+    }
+    // 3c. complete text items that are not valid UTF-8, with long runs of multi-byte characters
+    // before the offending bytes (error paths that quote or measure the valid part), definite and
+    // chunked, alone and inside containers
+    {
+        let n: u64 = if asan { 2_000 } else if a.thorough() { 400_000 } else { 40_000 };
+        for i in 0..n {
+            if !a.mine(i) {
+                continue;
+            }
+            let mut rng = Rng::derive("c02/badtext", a.seed, 0, i);
+            let input = bad_text_item(&mut rng);
+            rep.seen(fnv64(&input));
+            mon::set_case(&input[..input.len().min(200)]);
+            check_input(&cx, rep, &input, None);
+        }
+        rep.count_n("invalid-UTF-8 text items", n / a.nshards.max(1));
     }
     // 4. a few large hostile inputs (declared sizes far above the input)
     if a.shard == 0 {
